@@ -103,6 +103,8 @@ func (t *int64Scalar) CoerceOut(v interface{}) (interface{}, error) {
 		var i int64
 		if i, err = strconv.ParseInt(tv, 10, 64); err == nil {
 			v = i
+		} else {
+			v = nil
 		}
 	default:
 		err = newCoerceErr(tv, "Int64")
